@@ -19,6 +19,10 @@ import BoltonsVerif.C11.Proofs
 
 namespace C11
 
+set_option linter.unusedSimpArgs false
+set_option linter.unusedVariables false
+set_option linter.unusedSectionVars false
+
 /-- binary search finds the boundary `t` of a predicate that is true below `t` and false from `t` on -/
 theorem bsearch_boundary (p : Nat → Bool) (t : Nat) :
     ∀ (fuel lo hi : Nat), lo ≤ t → t ≤ hi → hi - lo ≤ fuel →
@@ -207,5 +211,263 @@ theorem popAt_beyond (cfg : Cfg) (s : ISet α) (h : Inv s) (k : Nat) (hk : s.toL
   have h1 : ¬ ((k : Int) = -1 ∨ (k : Int) = (s.len : Int) - 1) := by omega
   rw [if_neg h1, normIndex_nonneg]
   simp only [List.getElem?_eq_none hb]
+
+/-! ### the compaction thresholds really bound the garbage -/
+
+/-- at most `limit` dead intervals, and the tombstones are at most a `1/factor` share of the slots -/
+def Bounded (cfg : Cfg) (s : ISet α) : Prop :=
+  s.dead.length ≤ cfg.limit ∧ (s.items.length - s.idx.length) * cfg.factor ≤ s.items.length
+
+theorem slots_eq_of_noDead (s : ISet α) (h : InvC s) (hd : s.dead = []) : s.items.length = s.idx.length := by
+  have hlive : ∀ j, 0 ≤ j → j < s.items.length → s.items[j]? ≠ some none := by
+    intro j h1 h2 h3
+    have := (h.tombs j h1 h2).1 h3
+    rw [hd] at this; exact (deadAt_nil j).1 this
+  have h1 := lc_all_live s.items 0 s.items.length (Nat.zero_le _) (Nat.le_refl _) hlive
+  rw [lc_zero, lc_length] at h1
+  have h2 := h.perm.length_eq
+  rw [IMap.length_keys] at h2
+  omega
+
+theorem bounded_noDead (cfg : Cfg) (s : ISet α) (h : InvC s) (hd : s.dead = []) : Bounded cfg s := by
+  have := slots_eq_of_noDead s h hd
+  unfold Bounded
+  rw [hd, this]
+  simp
+
+/-- whatever `_cull` is given, what it leaves is within both thresholds -/
+theorem cull_bounded (cfg : Cfg) (s : ISet α) (hres : InvC (cull cfg s)) : Bounded cfg (cull cfg s) := by
+  unfold cull at hres ⊢
+  by_cases h1 : s.dead.isEmpty = true
+  · simp only [h1, if_true] at hres ⊢
+    exact bounded_noDead cfg s hres (by simpa using h1)
+  simp only [h1, Bool.false_eq_true, if_false] at hres ⊢
+  by_cases h2 : s.idx.isEmpty = true
+  · simp only [h2, if_true] at hres ⊢
+    exact bounded_noDead cfg _ hres rfl
+  simp only [h2, Bool.false_eq_true, if_false] at hres ⊢
+  have hcd : ∀ t : ISet α, (compact t).dead = [] := by
+    intro t; unfold compact
+    cases hd : t.dead with
+    | nil => simp [hd]
+    | cons p ps => simp
+  by_cases h3 : s.dead.length > cfg.limit
+  · simp only [h3, if_true] at hres ⊢
+    exact bounded_noDead cfg _ hres (hcd s)
+  simp only [h3, if_false] at hres ⊢
+  by_cases h4 : (s.items.length - s.idx.length) * cfg.factor > s.items.length
+  · simp only [h4, if_true] at hres ⊢
+    exact bounded_noDead cfg _ hres (hcd s)
+  simp only [h4, if_false] at hres ⊢
+  by_cases h5 : s.items.getLast? = some none
+  · simp only [h5, if_true] at hres ⊢
+    unfold Bounded
+    simp only
+    constructor
+    · have : (popDeadFrom s.dead (List.take (s.items.length - trailingDead s.items) s.items).length).length
+          ≤ s.dead.length := by
+        unfold popDeadFrom
+        rw [List.length_reverse]
+        have := (List.dropWhile_sublist (l := s.dead.reverse) (startsAtOrAfter
+          (List.take (s.items.length - trailingDead s.items) s.items).length)).length_le
+        rw [List.length_reverse] at this
+        exact this
+      omega
+    · rw [List.length_take]
+      generalize trailingDead s.items = t
+      generalize s.items.length = L at *
+      generalize s.idx.length = I at *
+      by_cases hf : cfg.factor = 0
+      · rw [hf]; simp
+      · by_cases hle : L - t ≤ I
+        · have : min (L - t) L - I = 0 := by omega
+          rw [this]; simp
+        · have e : min (L - t) L - I = (L - I) - t := by omega
+          rw [e, Nat.sub_mul]
+          have : t ≤ t * cfg.factor := Nat.le_mul_of_pos_right t (by omega)
+          have hm : min (L - t) L = L - t := by omega
+          rw [hm]
+          omega
+  · simp only [h5, if_false] at hres ⊢
+    exact ⟨by omega, by omega⟩
+
+theorem add_bounded (cfg : Cfg) (s : ISet α) (h : InvC s) (hb : Bounded cfg s) (x : α) :
+    Bounded cfg (s.add x) := by
+  unfold ISet.add
+  by_cases hc : s.contains x = true
+  · simp only [hc, if_true]; exact hb
+  · simp only [hc, Bool.false_eq_true, if_false]
+    have hx : x ∉ IMap.keys s.idx := by
+      intro hm
+      apply hc
+      unfold ISet.contains
+      exact (IMap.lookup_isSome_iff s.idx x).2 hm
+    have hl : (IMap.set s.idx x s.items.length).length = s.idx.length + 1 := by
+      rw [← IMap.length_keys, IMap.keys_set_not_mem _ _ _ hx, List.length_append, IMap.length_keys]; rfl
+    unfold Bounded at hb ⊢
+    simp only [List.length_append, List.length_singleton, hl]
+    refine ⟨hb.1, ?_⟩
+    have e : s.items.length + 1 - (s.idx.length + 1) = s.items.length - s.idx.length := by omega
+    rw [e]; omega
+
+theorem discard_bounded (cfg : Cfg) (s : ISet α) (h : Inv s) (hb : Bounded cfg s) (x : α) :
+    Bounded cfg (s.discard cfg x) := by
+  have hinv := (discard_spec cfg s h x).1
+  unfold ISet.discard at hinv ⊢
+  unfold ISet.remove at hinv ⊢
+  cases hl : s.idx.lookup x with
+  | none => simp only [hl]; exact hb
+  | some i =>
+    simp only [hl] at hinv ⊢
+    exact cull_bounded cfg _ hinv.toInvC
+
+theorem foldl_discard_bounded (cfg : Cfg) : ∀ (xs : List α) (s : ISet α), Inv s → Bounded cfg s →
+    Bounded cfg (xs.foldl (ISet.discard cfg) s)
+  | [], _, _, hb => hb
+  | x :: xs, s, h, hb => by
+    simp only [List.foldl_cons]
+    exact foldl_discard_bounded cfg xs _ (discard_spec cfg s h x).1 (discard_bounded cfg s h hb x)
+
+theorem foldl_add_bounded (cfg : Cfg) : ∀ (xs : List α) (s : ISet α), Inv s → Bounded cfg s →
+    Bounded cfg (xs.foldl ISet.add s)
+  | [], _, _, hb => hb
+  | x :: xs, s, h, hb => by
+    simp only [List.foldl_cons]
+    exact foldl_add_bounded cfg xs _ (inv_add s h x) (add_bounded cfg s h.toInvC hb x)
+
+theorem foldl_toggle_bounded (cfg : Cfg) : ∀ (xs : List α) (s : ISet α), Inv s → Bounded cfg s →
+    Bounded cfg (xs.foldl (ISet.toggle cfg) s)
+  | [], _, _, hb => hb
+  | x :: xs, s, h, hb => by
+    simp only [List.foldl_cons]
+    have hi : Inv (s.toggle cfg x) := by
+      unfold ISet.toggle; split
+      · exact (discard_spec cfg s h x).1
+      · exact inv_add s h x
+    have hb' : Bounded cfg (s.toggle cfg x) := by
+      unfold ISet.toggle; split
+      · exact discard_bounded cfg s h hb x
+      · exact add_bounded cfg s h.toInvC hb x
+    exact foldl_toggle_bounded cfg xs _ hi hb'
+
+theorem clear_bounded (cfg : Cfg) (s : ISet α) : Bounded cfg s.clear := by
+  simp [Bounded, ISet.clear]
+
+theorem remove_bounded (cfg : Cfg) (s : ISet α) (x : α) :
+    ∀ r, s.remove cfg x = .ok r → Inv r → Bounded cfg r := by
+  intro r hr hi
+  unfold ISet.remove at hr
+  split at hr
+  · cases hr
+  · cases hr; exact cull_bounded cfg _ hi.toInvC
+
+theorem popLast_bounded (cfg : Cfg) (s : ISet α) :
+    ∀ r, s.popLast cfg = .ok r → Inv r.1 → Bounded cfg r.1 := by
+  intro r hr hi
+  unfold ISet.popLast at hr
+  split at hr
+  · cases hr
+  · cases hr
+  · cases hr; exact cull_bounded cfg _ hi.toInvC
+
+theorem popAt_bounded (cfg : Cfg) (s : ISet α) (i : Int) :
+    ∀ r, s.popAt cfg i = .ok r → Inv r.1 → Bounded cfg r.1 := by
+  intro r hr hi
+  unfold ISet.popAt at hr
+  split at hr
+  · exact popLast_bounded cfg s r hr hi
+  · split at hr
+    · cases hr
+    · simp only at hr
+      split at hr
+      · cases hr
+      · cases hr
+      · cases hr; exact cull_bounded cfg _ hi.toInvC
+
+theorem sort_bounded (cfg : Cfg) (le : α → α → Bool) (rev : Bool) (s : ISet α) (hb : Bounded cfg s)
+    (hi : Inv (s.sort le rev)) : Bounded cfg (s.sort le rev) := by
+  unfold ISet.sort at hi ⊢
+  simp only at hi ⊢
+  split
+  · exact hb
+  · rename_i hc
+    rw [if_neg hc] at hi
+    exact bounded_noDead cfg _ hi.toInvC rfl
+
+/-- every public operation keeps the garbage within the thresholds -/
+theorem step_bounded (cfg : Cfg) (le : α → α → Bool) (s : ISet α) (h : Inv s) (hb : Bounded cfg s)
+    (op : Op α) : Bounded cfg (step cfg le s op).1 := by
+  have hinv := step_inv cfg le s h op
+  cases op with
+  | add x => exact add_bounded cfg s h.toInvC hb x
+  | remove x =>
+    simp only [step] at hinv ⊢
+    cases hr : s.remove cfg x with
+    | error e => simp only [hr]; exact hb
+    | ok r => simp only [hr] at hinv ⊢; exact remove_bounded cfg s x r hr hinv
+  | discard x => exact discard_bounded cfg s h hb x
+  | pop =>
+    simp only [step] at hinv ⊢
+    cases hr : s.popLast cfg with
+    | error e => simp only [hr]; exact hb
+    | ok r => obtain ⟨s', y⟩ := r; simp only [hr] at hinv ⊢; exact popLast_bounded cfg s _ hr hinv
+  | popAt i =>
+    simp only [step] at hinv ⊢
+    cases hr : s.popAt cfg i with
+    | error e => simp only [hr]; exact hb
+    | ok r => obtain ⟨s', y⟩ := r; simp only [hr] at hinv ⊢; exact popAt_bounded cfg s i _ hr hinv
+  | clear => exact clear_bounded cfg s
+  | sort rev => exact sort_bounded cfg le rev s hb hinv
+  | sortBy lek rev bad =>
+    simp only [step] at hinv ⊢
+    cases hr : s.sortBy lek rev bad with
+    | error e => simp only [hr]; exact hb
+    | ok r =>
+      simp only [hr] at hinv ⊢
+      unfold ISet.sortBy at hr
+      split at hr
+      · cases hr
+      · cases hr; exact sort_bounded cfg lek rev s hb hinv
+  | reverse => exact bounded_noDead cfg _ hinv.toInvC rfl
+  | update os =>
+    simp only [step, ISet.update]
+    split
+    · exact hb
+    · exact foldl_add_bounded cfg _ s h hb
+  | interUpdate os =>
+    simp only [step, ISet.interUpdate]
+    exact foldl_discard_bounded cfg _ s h hb
+  | diffUpdate os =>
+    simp only [step, ISet.diffUpdate]
+    split
+    · exact foldl_discard_bounded cfg _ _ (step_inv cfg le s h .clear) (clear_bounded cfg s)
+    · exact foldl_discard_bounded cfg _ s h hb
+  | symUpdate o =>
+    simp only [step, ISet.symUpdate]
+    split
+    · exact clear_bounded cfg s
+    · exact foldl_toggle_bounded cfg _ s h hb
+  | get i => exact hb
+  | slice a b c => exact hb
+  | symdiff os => exact hb
+  | iter => exact hb
+  | len => exact hb
+  | contains x => exact hb
+  | index x => exact hb
+  | count x => exact hb
+  | reversed => exact hb
+  | union os => exact hb
+  | inter os => exact hb
+  | diff os => exact hb
+  | rsub o => exact hb
+  | issubset o => exact hb
+  | issuperset o => exact hb
+  | isdisjoint o => exact hb
+
+theorem runState_bounded (cfg : Cfg) (le : α → α → Bool) : ∀ (ops : List (Op α)) (s : ISet α), Inv s →
+    Bounded cfg s → Bounded cfg (runState cfg le s ops)
+  | [], _, _, hb => hb
+  | op :: ops, s, h, hb =>
+    runState_bounded cfg le ops _ (step_inv cfg le s h op) (step_bounded cfg le s h hb op)
 
 end C11
